@@ -160,6 +160,11 @@ impl VerifCurve {
     }
 
     /// The object `__setstate__` restores from a byte state.
+    /// Python's pickle protocol: `cls(*__getnewargs__())` then `__setstate__(__getstate__())`.
+    pub fn py_pickle(&self) -> Result<Self, String> {
+        self.0.verif_py_pickle().map(VerifCurve)
+    }
+
     pub fn from_state_bytes(state: &[u8]) -> Result<Self, String> {
         Curve::verif_from_state(state)
             .map(VerifCurve)
@@ -176,6 +181,11 @@ impl VerifObj {
         DeserializedObj::from_json(json)
             .map(VerifObj)
             .map_err(|e| e.to_string())
+    }
+
+    /// The Python-exposed `from_json` function itself, called under the interpreter lock.
+    pub fn py_from_json(json: &str) -> Result<Self, String> {
+        crate::json::json_py::verif_py_from_json(json).map(VerifObj)
     }
 
     pub fn to_json(&self) -> Result<String, String> {
